@@ -12,6 +12,8 @@ behave as the model says is the trusted part, tied to the code by the differenti
 (hook `verif_audit` + content of every readable store after every operation).
 -/
 import SophiaProofs.Lemmas.HeapWorld
+import SophiaProofs.Lemmas.HeapX
+import SophiaProofs.Lemmas.HeapSized
 import SophiaProofs.Lemmas.StoreQuery
 import SophiaModel.Gen.CloneKind
 
@@ -76,6 +78,19 @@ def Safe (w : World) : Prop :=
 
 theorem safe_of_winv {w : World} (inv : WInv w) : Safe w :=
   ⟨inv.ub, fun e he _ ht _ hr => (inv.ix e he).entry_deref ht hr⟩
+
+/-- the model reads keys (hashing / comparing in `get_index`, `ensure_index`, the manual `Clone`) and the
+entries of `view` through the TOTALISED `keyTerm` (`getD`), which by itself would never raise `ub`.  In
+every world satisfying the invariant the default is never taken: each key and each entry reads, as an
+effect-free `readTerm?`, exactly the term `keyTerm` returns. -/
+theorem key_reads_defined {w : World} (inv : WInv w) {e : Nat × HStore} (he : e ∈ w.stores) :
+    (∀ k ∈ e.2.ix.t2i, readTerm? w.heap k.1 = some (keyTerm w.heap k.1)) ∧
+    (∀ t ∈ e.2.ix.i2t, readTerm? w.heap t = some (keyTerm w.heap t)) := by
+  refine ⟨fun k hk => ?_, fun t ht => ?_⟩
+  · obtain ⟨x, hx⟩ := (inv.ix e he).keysRead k hk
+    simp [keyTerm, hx]
+  · obtain ⟨_, _, x, _, hx⟩ := (inv.ix e he).sync t ht
+    simp [keyTerm, hx]
 
 /-- `no_dangling`: for ALL histories — any interleaving of insert / remove / clone / clone_from / drop
 of the original or of the clone / swap / move / Box / take / growth / iteration, on any number of
@@ -339,6 +354,245 @@ theorem c10_verdict :
   cases hk : Gen.cloneKind with
   | manual => exact Or.inl ⟨rfl, no_dangling⟩
   | derived => exact Or.inr ⟨rfl, derive_not_safe⟩
+
+/-- the flag the theorems above are conditional on, as REGENERATED from inmem/src/index.rs: if the source
+goes back to `#[derive(Clone)]` (or to any other shape) this obligation fails -/
+theorem cloneKind_is : Gen.cloneKind = .manual := rfl
+
+/-- … hence, unconditionally, for the `Clone` the source has: every history of store operations is safe -/
+theorem c10_holds_gen (ops : List Op) : Safe (World.run Gen.cloneKind {} ops) := c10_holds cloneKind_is ops
+
+/-! ### moves: the value is the same, only its name / place changes
+
+`clone_independent` speaks about stores an operation does NOT name.  These are the missing cases of the
+clause "mutating, dropping or MOVING either one never changes what the other returns": the moved store
+itself keeps its index, its rows, and — the heap is untouched — everything it reads. -/
+
+/-- `let b = a;` -/
+theorem mv_same_content {w : World} (inv : WInv w) {a b : Nat} {s : HStore}
+    (ha : w.get a = some s) (hb : w.get b = none) :
+    (World.step .manual w (.mv a b)).1.get b = some s ∧ (World.step .manual w (.mv a b)).1.get a = none ∧
+    (World.step .manual w (.mv a b)).1.heap = w.heap := by
+  have hab : a ≠ b := fun e => by rw [e, hb] at ha; cases ha
+  have hw := inv.step (.mv a b)
+  simp only [World.step, ha, hb] at hw ⊢
+  refine ⟨get_of_mem hw.names (by simp [World.add]), ?_, rfl⟩
+  rw [get_add_other _ _ hab]
+  simp only [World.get, World.del, Option.map_eq_none_iff, List.find?_eq_none, List.mem_filter]
+  intro e he
+  simpa using he.2
+
+/-- `Box::new(a)` / `*a` -/
+theorem box_same_content {w : World} (inv : WInv w) {a : Nat} {s : HStore} (ha : w.get a = some s) :
+    (World.step .manual w (.box a)).1.get a = some { s with boxed := !s.boxed } ∧
+    (World.step .manual w (.box a)).1.heap = w.heap := by
+  have hw := inv.step (.box a)
+  simp only [World.step, ha] at hw ⊢
+  refine ⟨get_of_mem hw.names ?_, rfl⟩
+  simp only [World.set, List.mem_map]
+  exact ⟨(a, s), get_mem ha, by simp⟩
+
+/-- `std::mem::swap(&mut a, &mut b)` -/
+theorem swap_same_content {w : World} (inv : WInv w) {a b : Nat} {sa sb : HStore}
+    (ha : w.get a = some sa) (hb : w.get b = some sb) (hab : a ≠ b) :
+    (World.step .manual w (.swap a b)).1.get a = some sb ∧ (World.step .manual w (.swap a b)).1.get b = some sa ∧
+    (World.step .manual w (.swap a b)).1.heap = w.heap := by
+  have hw := inv.step (.swap a b)
+  have hne : (a == b) = false := by simpa using hab
+  simp only [World.step, ha, hb, hne, Bool.false_eq_true, if_false] at hw ⊢
+  refine ⟨get_of_mem hw.names ?_, get_of_mem hw.names ?_, rfl⟩
+  · simp only [World.set, List.mem_map]
+    refine ⟨(a, sb), ⟨(a, sa), get_mem ha, by simp⟩, ?_⟩
+    simp [hne]
+  · simp only [World.set, List.mem_map]
+    exact ⟨(b, sb), ⟨(b, sb), get_mem hb, by simp [show (b == a) = false by simpa using Ne.symm hab]⟩, by simp⟩
+
+/-- `let b = std::mem::take(&mut a);` -/
+theorem take_same_content {w : World} (inv : WInv w) {a b : Nat} {s : HStore}
+    (ha : w.get a = some s) (hb : w.get b = none) :
+    (World.step .manual w (.take a b)).1.get b = some s ∧
+    (World.step .manual w (.take a b)).1.get a = some (HStore.new s.shape s.max) ∧
+    (World.step .manual w (.take a b)).1.heap = w.heap := by
+  have hab : a ≠ b := fun e => by rw [e, hb] at ha; cases ha
+  have hw := inv.step (.take a b)
+  simp only [World.step, ha, hb] at hw ⊢
+  refine ⟨get_of_mem hw.names (by simp [World.add]), get_of_mem hw.names ?_, rfl⟩
+  simp only [World.add, World.set, List.mem_append, List.mem_map]
+  exact Or.inl ⟨(a, s), get_mem ha, by simp⟩
+
+/-- `clone a b` leaves the ORIGINAL as it was: same value under the same name, and every entry reads what
+it read before (the clone only adds cells to the heap) -/
+theorem clone_original_unchanged {w : World} (inv : WInv w) {a b : Nat} {s : HStore}
+    (ha : w.get a = some s) (hb : w.get b = none) :
+    (World.step .manual w (.clone a b)).1.get a = some s ∧
+    ∀ t ∈ s.ix.i2t, readTerm? (World.step .manual w (.clone a b)).1.heap t = readTerm? w.heap t := by
+  obtain ⟨h', c, hc, he, _, _, _, _, _, _, _⟩ := cloneStore_manual_spec (inv.ix _ (get_mem ha))
+  have hab : a ≠ b := fun e => by rw [e, hb] at ha; cases ha
+  simp only [World.step, ha, hb, hc]
+  refine ⟨by rw [get_add_other _ _ hab]; exact ha, fun t ht => ?_⟩
+  obtain ⟨_, _, x, _, hx⟩ := (inv.ix _ (get_mem ha)).sync t ht
+  show readTerm? h' t = readTerm? w.heap t
+  rw [hx]; exact readTerm?_ext he hx
+
+example : ∃ s, (World.run .manual {} [.new 0 ⟨0, [], []⟩ 9, .ens 0 (.iri ['x'])]).get 0 = some s ∧
+    (World.run .manual {} [.new 0 ⟨0, [], []⟩ 9, .ens 0 (.iri ['x'])]).get 1 = none := by decide
+
+/-! ### index full: a refused insertion leaves nothing behind -/
+
+/-- `ensure_index` on a full index (`len() ≥ MAX`) for a term it does not know: `TermIndexFullError`, the
+index is EXACTLY what it was (in particular no `i2t` entry whose key is gone), and the only effect on the
+heap is that the owned copy made for the lookup is released again -/
+theorem ensure_index_full_refused (max : Nat) (h : Heap.Heap) (ix : TIndex) (t : Term)
+    (hfull : max ≤ ix.i2t.length) (hnew : ix.getIndex (allocTerm h t).1 t = none) :
+    ix.ensureIndex max h t = ((allocTerm h t).1.freeAll (allocTerm h t).2.ownedIds, ix, none) := by
+  simp only [TIndex.ensureIndex, hnew, ge_iff_le, hfull, if_true]
+
+/-- … and a known term is still answered when the index is full -/
+theorem ensure_index_known (max : Nat) (h : Heap.Heap) (ix : TIndex) (t : Term) {i : Nat}
+    (hk : ix.getIndex (allocTerm h t).1 t = some i) :
+    ix.ensureIndex max h t = ((allocTerm h t).1.freeAll (allocTerm h t).2.ownedIds, ix, some i) := by
+  simp only [TIndex.ensureIndex, hk]
+
+/-- non-vacuity, on the six-term index the harness uses: six terms fit, the seventh is refused, twice,
+the index is unchanged, self-contained and `Debug`-printable, and so is its clone -/
+example :
+    let w := World.run .manual {} [.new 0 ⟨0, [], []⟩ 6, .ens 0 (.iri ['a']), .ens 0 (.iri ['b']), .ens 0 (.iri ['c']),
+      .ens 0 (.iri ['d']), .ens 0 (.iri ['e']), .ens 0 (.iri ['f'])]
+    (World.step .manual w (.ens 0 (.iri ['g']))).2 = .full ∧
+    (World.step .manual (World.step .manual w (.ens 0 (.iri ['g']))).1 (.ens 0 (.iri ['h']))).2 = .full ∧
+    (World.step .manual (World.step .manual w (.ens 0 (.iri ['g']))).1 (.ens 0 (.iri ['a']))).2 = .idx 0 ∧
+    ((World.step .manual w (.ens 0 (.iri ['g']))).1.get 0).map (·.ix) = (w.get 0).map (·.ix) := by decide
+
+/-- `index_sized`: after ANY history, under EITHER `Clone` (no invariant assumed, no heap reasoning): every
+index of every live store has exactly one key per `i2t` entry, the `j`-th key is mapped to `j`, and there
+are at most `MAX` entries — `len()` never exceeds `MAX`, and a refused insertion, alone or in the middle of
+a quad, before or after cloning / moving, leaves no entry without a key. -/
+theorem index_sized (ck : CloneKind) (ops : List Op) : ∀ e ∈ (World.run ck {} ops).stores,
+    e.2.ix.t2i.length = e.2.ix.i2t.length ∧ e.2.ix.i2t.length ≤ e.2.max ∧
+    e.2.ix.t2i.map (·.2) = List.range e.2.ix.i2t.length :=
+  fun e he => ⟨((WSized.init.run ck ops) e he).len, ((WSized.init.run ck ops) e he).le, ((WSized.init.run ck ops) e he).keys⟩
+
+/-- `audit_key_found`: hence the audit (model of the hook `verif_audit`) never reports "no key for this
+entry": for every entry `i` of every live store after any history the key it compares `i2t[i]` with exists
+and is the `i`-th one.  (That this key has the entry's shape and contains its pointers is `sc_preserved`'s
+`SelfContained` for SOME key of the store; for THIS key it is what the differential compares after every
+operation — a proof needs key uniqueness (C01's I2) carried through the heap model.) -/
+theorem audit_key_found (ck : CloneKind) (ops : List Op) : ∀ e ∈ (World.run ck {} ops).stores,
+    ∀ i, (hi : i < e.2.ix.i2t.length) → ∃ k, e.2.ix.t2i[i]? = some (k, i) ∧
+      e.2.ix.auditEntry i = (k.sameShape e.2.ix.i2t[i], k.sameShape e.2.ix.i2t[i] && insideKey k e.2.ix.i2t[i]) := by
+  intro e he i hi
+  obtain ⟨k, hk, hg⟩ := keyAt_of_sized ((WSized.init.run ck ops) e he) hi
+  exact ⟨k, hg, by simp only [TIndex.auditEntry, hk, List.getElem?_eq_getElem hi]⟩
+
+theorem cloneFree_eq : cloneFree = cloneFreeOp := by funext op; cases op <;> rfl
+
+/-- `audit_clean_partial`: whatever `Clone` the source defines, after every history WITHOUT `clone` /
+`clone_from` — inserts, refused inserts (index full, also in the middle of a quad), removals, growth, drops,
+swaps, moves, Box, mem::take, iteration, on any number of stores — the audit vector of every live store is
+clean: for EVERY entry the key mapped to it exists, has its shape and owns every buffer the entry borrows
+(the `1*n` the driver prints and check.py compares with the hook's answer).  No invariant assumed, no heap
+reasoning.  The full statement (all histories, manual `Clone`) is `sc_preserved` for the weaker
+"SOME key of the same store" + the differential for "THIS key": carrying the pairing through the manual
+`Clone`, which finds the new key by a lookup on content, needs key uniqueness (C01's I2) in the heap model. -/
+theorem audit_clean_partial (ck : CloneKind) (ops : List Op) (h : ops.all cloneFree = true) :
+    ∀ e ∈ (World.run ck {} ops).stores, ∀ p ∈ e.2.ix.audit, p = (true, true) := by
+  rw [cloneFree_eq] at h
+  intro e he
+  have := (WP.run bothPred ck WP.init ops (Or.inl h)) e he
+  exact audit_clean_of this.1 this.2
+
+example : [Op.new 0 ⟨0, [], []⟩ 2, .ens 0 (.iri ['a']), .ens 0 (.triple (.iri ['s']) (.iri ['p']) (.lang [] ['e'])),
+    .ens 0 (.iri ['c']), .take 0 1, .box 1, .drop 0].all cloneFree = true := by decide
+
+example : ∃ e ∈ (World.run .manual {} [.new 0 ⟨0, [], []⟩ 2, .ens 0 (.iri ['a']), .ens 0 (.iri ['b']), .ens 0 (.iri ['c']),
+    .clone 0 1, .ens 1 (.iri ['d'])]).stores, e.1 = 1 ∧ e.2.ix.i2t.length = 2 ∧ e.2.ix.audit = [(true, true), (true, true)] := by
+  decide
+
+/-! ### terms cloned out of a store and kept (`get_term(i).clone()`, items of `triples()` / `quads()`)
+
+The second sentence of the property — "no sequence of safe API calls on these stores leads to undefined
+behaviour" — quantifies over MORE than the operations on the stores themselves: the stores lend terms, and
+what safe code may do with a lent term depends on its TYPE.  `XWorld.step ck te` adds that: `te` (generated:
+`Gen.termEscapes`) says whether the source declares `type Term = SimpleTerm<'static>`. -/
+
+/-- the full statement: no UB, every entry of every live store dereferences, AND every kept clone of a
+lent term dereferences -/
+def XSafe (xw : XWorld) : Prop :=
+  Safe xw.w ∧ ∀ e ∈ xw.esc, dangles xw.w.heap e.2 = false
+
+/-- the property at full strength over the model the driver runs -/
+def C10Full (ck : CloneKind) (te : Bool) : Prop := ∀ ops : List XOp, XSafe (XWorld.run ck te {} ops)
+
+theorem xsafe_of_xinv {xw : XWorld} (inv : XInv xw) : XSafe xw :=
+  ⟨safe_of_winv inv.w, by rw [inv.none]; intro e he; cases he⟩
+
+/-- the 4-step history of the finding: insert one IRI; keep a clone of the lent term; drop the index; read the clone -/
+def escWitness : List XOp :=
+  [.base (.new 0 tiShape 9), .base (.ens 0 (.iri ['x'])), .esc 0 (.iri ['x']) 7, .base (.drop 0)]
+
+/-- `escape_dangles`: while the index lends `&SimpleTerm<'static>` (`te = true`), there is a history of
+SAFE calls — insert; `let x = a.get_term(0).clone()`; `drop(a)` — after which no store is left, no UB has
+happened yet, the kept term points into a RELEASED allocation (the key of the dropped index), and reading
+it through its accessors is UB.  Independent of the `Clone` of the index (holds for `.manual`).
+Kernel-checked by evaluation of the model. -/
+theorem escape_dangles :
+    (XWorld.run .manual true {} escWitness).w.stores = [] ∧
+    (XWorld.run .manual true {} escWitness).w.heap.ub = false ∧
+    (∃ t, (XWorld.run .manual true {} escWitness).getEsc 7 = some t ∧
+      dangles (XWorld.run .manual true {} escWitness).w.heap t = true ∧
+      ∃ r ∈ t.refs, (XWorld.run .manual true {} escWitness).w.heap.deref r = none) ∧
+    (XWorld.step .manual true (XWorld.run .manual true {} escWitness) (.readEsc 7)).1.w.heap.ub = true := by
+  decide
+
+/-- hence the full statement is FALSE for the term type `SimpleTerm<'static>` -/
+theorem c10_full_refuted : ¬ C10Full .manual true := by
+  intro h
+  have h2 := (h escWitness).2
+  have hw : ∃ e ∈ (XWorld.run .manual true {} escWitness).esc,
+      dangles (XWorld.run .manual true {} escWitness).w.heap e.2 = true := by decide
+  obtain ⟨e, he, hd⟩ := hw
+  rw [h2 e he] at hd; cases hd
+
+/-- a quoted triple's `i2t` entry OWNS deep copies: its kept clone owns its own copies and survives the store -/
+example : ∃ t, (XWorld.run .manual true {} [.base (.new 0 tiShape 9),
+      .base (.ens 0 (.triple (.iri ['s']) (.iri ['p']) (.iri ['o']))),
+      .esc 0 (.triple (.iri ['s']) (.iri ['p']) (.iri ['o'])) 7, .base (.drop 0)]).getEsc 7 = some t ∧
+    dangles (XWorld.run .manual true {} [.base (.new 0 tiShape 9),
+      .base (.ens 0 (.triple (.iri ['s']) (.iri ['p']) (.iri ['o']))),
+      .esc 0 (.triple (.iri ['s']) (.iri ['p']) (.iri ['o'])) 7, .base (.drop 0)]).w.heap t = false := by decide
+
+/-- `escape_bounded_safe`: with a term type that binds every lent term to the borrow of its store
+(`te = false`, the proposed but NOT applied notes/fixes/C10-indexed-term-lifetime.diff) the full statement HOLDS: for all histories over
+store operations, `esc` attempts, `Debug` formatting, on any number of stores. -/
+theorem escape_bounded_safe : C10Full .manual false :=
+  fun ops => xsafe_of_xinv (XInv.init.run false ops (Or.inl rfl))
+
+/-- `c10_full_partial`: whatever the term type, every history that KEEPS no lent term (all store
+operations + `Debug` formatting + reads/drops of kept terms, which then do not exist) is safe.
+The full statement `C10Full` needs `te = false`; for `te = true` it is refuted (`escape_dangles`). -/
+theorem c10_full_partial (te : Bool) (ops : List XOp) (h : ops.all escFree = true) :
+    XSafe (XWorld.run .manual te {} ops) :=
+  xsafe_of_xinv (XInv.init.run te ops (Or.inr h))
+
+example : [XOp.base (.new 0 tiShape 9), .base (.ens 0 (.iri ['x'])), .dbg 0, .base (.clone 0 1), .base (.drop 0), .dbg 1,
+    .readEsc 7].all escFree = true := by decide
+
+/-- the verdict for the CURRENT tree over both generated flags (`Gen.cloneKind`, `Gen.termEscapes`; the
+extractor fails closed on any other shape): the property at full strength holds iff the index does not
+lend `'static` terms; a history refuting it exists otherwise. -/
+-- STATUS: the tree has `Gen.termEscapes = true`; C10-lent-term-clone-outlives-store is a RECORDED KNOWN FINDING, not
+-- repaired.  notes/fixes/C10-indexed-term-lifetime.diff is a PROPOSED repair that was NOT applied: it changes the
+-- public associated type `TermIndex::Term` of `SimpleTermIndex`, which breaks downstream generic code naming
+-- `&'x SimpleTerm<'static>` (an API change for the maintainers to decide, not a small safe fix).  The `false` branch
+-- below says what would hold with such a term type; the differential reports every kept term that dangles and
+-- check.py matches it against the finding.
+theorem c10_full_verdict :
+    (Gen.termEscapes = false ∧ C10Full Gen.cloneKind Gen.termEscapes) ∨
+    (Gen.termEscapes = true ∧ ¬ C10Full Gen.cloneKind Gen.termEscapes) := by
+  rw [cloneKind_is]
+  cases Gen.termEscapes with
+  | false => exact Or.inl ⟨rfl, escape_bounded_safe⟩
+  | true => exact Or.inr ⟨rfl, c10_full_refuted⟩
 
 /-! ### the other `unsafe` sites of the anchored files -/
 
